@@ -35,6 +35,20 @@ class NoMark(Exception):
     pass
 
 
+
+def _xor_lowest(f_, v):
+    """`v ^ (1 << trailing_zeros(v))`: the other spelling of clearing the lowest set bit (the loop is entered with v != 0 only)."""
+    if f_[0] != "bin" or f_[1] != "BitXor":
+        return False
+    for a, b in ((f_[2], f_[3]), (f_[3], f_[2])):
+        if a == v and b[0] == "bin" and b[1] in ("Shl", "ShlUnchecked") and b[2][0] == "const" and b[2][1] == 1:
+            t = b[3]
+            while t[0] == "cast":
+                t = t[2]
+            if t[0] == "call" and t[1].endswith("trailing_zeros") and tuple(t[2]) == (v,):
+                return True
+    return False
+
 def _contains_backedge(nodes, b):
     """b = (header block, frame id)"""
     for n in nodes:
@@ -421,7 +435,7 @@ def emitter_rule(ctx, facts, rid):
                     f_ = strip(fin)
                     want1 = ("bin", "BitAnd", ("call", "core::num::<impl u64>::wrapping_sub", (v, ("const", 1, "u64"))), v)
                     want2 = ("bin", "BitAnd", v, ("call", "core::num::<impl u64>::wrapping_sub", (v, ("const", 1, "u64"))))
-                    if f_ not in (want1, want2):
+                    if f_ not in (want1, want2) and not _xor_lowest(f_, v):
                         okit = False
                 if not okit:
                     bad = "a generator loop does not step its bitboard iterator by clearing the lowest set bit (each square exactly once): %s" % (
@@ -473,19 +487,31 @@ def emitter_rule(ctx, facts, rid):
                             if sc["ep"] is not None and board.at(sc["ep"] + fwd) != 0:
                                 continue        # ... and the square that pawn passed over is empty (validation clears the mark otherwise, C11/V2)
                             want = wf and sc["board_src"] == c and _ref_semilegal(C, kind, c, S, D, sc)
-                            try:
-                                cnt = sum(1 for st in ss if site_emits(facts, st, S, D, board))
-                                got = cnt > 0
-                                if cnt > 1:
-                                    got = "emitted by %d sites (a duplicate in the move list)" % cnt
-                            except Unknown as e:
-                                got = "not evaluable: %s" % (e,)
-                            n_pts += 1
+                            boards = [(board, "")]
+                            if kind == 5 and sc["ep"] is not None and abs(S - sc["ep"]) == 1:
+                                # a bystander on the other side of the marked pawn changes nothing (two pawns may both capture en passant)
+                                O = 2 * sc["ep"] - S
+                                if 0 <= O <= 63 and (O >> 3) == (sc["ep"] >> 3) and O != D and O not in board.cells:
+                                    for extra in (cell(C, PAWN), cell(C, KNIGHT), cell(1 - C, PAWN)):
+                                        cells2 = dict(board.cells)
+                                        cells2[O] = extra
+                                        boards.append((Board(cells2, sc["ep"]), ", bystander cell %d on %s" % (extra, geom.name(O))))
+                            for board, note in boards:
+                                try:
+                                    cnt = sum(1 for st in ss if site_emits(facts, st, S, D, board))
+                                    got = cnt > 0
+                                    if cnt > 1:
+                                        got = "emitted by %d sites (a duplicate in the move list)" % cnt
+                                except Unknown as e:
+                                    got = "not evaluable: %s" % (e,)
+                                n_pts += 1
+                                if got != want:
+                                    break
                             if got != want:
                                 bad = (kind, piece, "%s from %s to %s: generator %s, rules %s (source cell %d, destination cell %d, blockers %#x, "
                                        "en-passant mark %s)" % (KINDS[kind], geom.name(S), geom.name(D), "emits" if got is True else
                                                                 ("does not emit" if got is False else got), "allow" if want else "forbid",
-                                                                sc["board_src"], sc["dst"], sc["all"], sc["ep"]))
+                                                                sc["board_src"], sc["dst"], sc["all"], str(sc["ep"]) + note))
                                 break
                         if bad:
                             break
